@@ -92,8 +92,13 @@ RULES = {
     "keyed by the tensor object, a name or a hash alone hands the initializer registered in one If branch to a Constant of the sibling "
     "branch (or of the enclosing graph), which cannot see it: the model refers to a value that is not defined in scope and no longer "
     "computes (the checker rejects it)",
+    "R21": "inferred types are carried back graph by graph: where the shape-inference pass copies what ONNX inferred onto the IR values, each "
+    "name-to-value table it looks a name up in (`create_value_mapping(<g>)`) is built from a loop variable of the loop that walks the "
+    "graphs of the original and of the inferred model in step (`zip(model.graphs(), inferred_model.graphs())`) - one table for the "
+    "whole inferred model matches values by bare name across scopes, so a value in one If branch receives the type of the value of the "
+    "same name in the sibling branch and the model is rejected by the full checker",
 }
-FLOORS = {"R1": 5, "R2": 6, "R3": 8, "R4": 6, "R5": 8, "R6": 2, "R7": 1, "R8": 10, "R9": 1, "R10": 3, "R11": 1, "R12": 2, "R13": 2, "R14": 2, "R15": 2, "R16": 100, "R17": 1, "R18": 1, "R19": 2, "R20": 1}
+FLOORS = {"R1": 5, "R2": 6, "R3": 8, "R4": 6, "R5": 8, "R6": 2, "R7": 1, "R8": 10, "R9": 1, "R10": 3, "R11": 1, "R12": 2, "R13": 2, "R14": 2, "R15": 2, "R16": 100, "R17": 1, "R18": 1, "R19": 2, "R20": 1, "R21": 1}
 EXPLANATION = (
     "Four structural necessary conditions of semantic preservation that the pass mechanisms rely on: guarded removal, "
     "interface-size preservation (call-site scan with receiver typing), data-dependence of the equivalence keys on all "
@@ -1321,9 +1326,38 @@ def rule_r20(ctx):
     ctx.require(n >= 3, f"only {n} pass loops over a recursive traversal found")
 
 
+def rule_r21(ctx):
+    m = ctx.repo.module("onnx_ir.passes.common.shape_inference")
+    n = 0
+    for f in ctx.repo.live(m.all_funcs):
+        if isinstance(f.node, ast.Lambda):
+            continue
+        maps = [c for c in calls_in(f) if (dotted_of(c.func) or "").endswith("create_value_mapping") and c.args]
+        if not maps:
+            continue
+        # loop variables of loops that pair the graphs of two models
+        paired = set()
+        for lp in (x for x in own_nodes(f.node) if isinstance(x, ast.For)):
+            it = lp.iter
+            if isinstance(it, ast.Call) and dotted_of(it.func) == "zip" and sum(1 for a_ in it.args if isinstance(a_, ast.Call) and isinstance(a_.func, ast.Attribute) and a_.func.attr == "graphs") >= 2:
+                paired |= {y.id for y in ast.walk(lp.target) if isinstance(y, ast.Name)}
+        for c in maps:
+            n += 1
+            arg = c.args[0]
+            ok = isinstance(arg, ast.Name) and arg.id in paired
+            ctx.check("R21", f"{f.local}: `{norm(c)[:60]}` is the table of one graph of the pair being merged", ok, f, c,
+                      f"`{norm(c)[:70]}` builds the table of names from `{norm(arg)[:40]}`, which is not the graph paired with the one being updated: a name is then matched across "
+                      "scopes, and a value of a subgraph gets the type and shape inferred for the first value of that name elsewhere in the model (an If whose branches both call a "
+                      "local value `t` with different element types: the full checker and onnxruntime reject the model after the pass)",
+                      how="arguments of create_value_mapping in the shape-inference merge × targets of `for a, b in zip(<model>.graphs(), <inferred>.graphs())`",
+                      construct="value table not built per paired graph")
+    ctx.require(n >= 1, "no create_value_mapping call found in the shape-inference merge")
+
+
 def run(ctx):
     from . import c14
 
+    rule_r21(ctx)
     rule_r20(ctx)
 
     c14.rule_r11(ctx, rule="R18")
